@@ -4,44 +4,67 @@ import IoraModel.Lemmas.Dns
 namespace Iora.Dns
 open Iora
 
-/-- `Denotes` with the number of decoding steps (labels + pointer hops) made explicit -/
-inductive DenotesN (m : Bytes) : Nat → List Bytes → Nat → Nat → Prop
-  | root {off : Nat} : m[off]? = some 0 → DenotesN m off [] (off + 1) 0
-  | label {off : Nat} {b : UInt8} {ls : List Bytes} {next k : Nat} :
+/-- `Denotes` with the number of decoding steps `k` (labels + pointer hops) and of pointer hops `h` made explicit -/
+inductive DenotesN (m : Bytes) : Nat → List Bytes → Nat → Nat → Nat → Prop
+  | root {off : Nat} : m[off]? = some 0 → DenotesN m off [] (off + 1) 0 0
+  | label {off : Nat} {b : UInt8} {ls : List Bytes} {next k h : Nat} :
       m[off]? = some b → 1 ≤ b.toNat → b.toNat ≤ 63 → off + 1 + b.toNat ≤ m.length →
-      DenotesN m (off + (b.toNat + 1)) ls next k →
-      DenotesN m off (slice m (off + 1) b.toNat :: ls) next (k + 1)
-  | ptr {off : Nat} {b b2 : UInt8} {ls : List Bytes} {nx k : Nat} :
+      DenotesN m (off + (b.toNat + 1)) ls next k h →
+      DenotesN m off (slice m (off + 1) b.toNat :: ls) next (k + 1) h
+  | ptr {off : Nat} {b b2 : UInt8} {ls : List Bytes} {nx k h : Nat} :
       m[off]? = some b → 192 ≤ b.toNat → m[off + 1]? = some b2 →
-      DenotesN m ((b.toNat % 64) * 256 + b2.toNat) ls nx k →
-      DenotesN m off ls (off + 2) (k + 1)
+      DenotesN m ((b.toNat % 64) * 256 + b2.toNat) ls nx k h →
+      DenotesN m off ls (off + 2) (k + 1) (h + 1)
 
-theorem Denotes.toN {m : Bytes} {off : Nat} {ls : List Bytes} {nx : Nat} (h : Denotes m off ls nx) :
-    ∃ k, DenotesN m off ls nx k := by
-  induction h with
+theorem DenotesH.toN {m : Bytes} {off : Nat} {ls : List Bytes} {nx h : Nat} (hd : DenotesH m off ls nx h) :
+    ∃ k, DenotesN m off ls nx k h := by
+  induction hd with
   | root h0 => exact ⟨0, .root h0⟩
   | label hb h1 h63 hlen _ ih => obtain ⟨k, hk⟩ := ih; exact ⟨k + 1, .label hb h1 h63 hlen hk⟩
   | ptr hb h192 hb2 _ ih => obtain ⟨k, hk⟩ := ih; exact ⟨k + 1, .ptr hb h192 hb2 hk⟩
 
-theorem DenotesN.toDenotes {m : Bytes} {off : Nat} {ls : List Bytes} {nx k : Nat} (h : DenotesN m off ls nx k) :
+theorem Denotes.toH {m : Bytes} {off : Nat} {ls : List Bytes} {nx : Nat} (hd : Denotes m off ls nx) :
+    ∃ h, DenotesH m off ls nx h := by
+  induction hd with
+  | root h0 => exact ⟨0, .root h0⟩
+  | label hb h1 h63 hlen _ ih => obtain ⟨h, hh⟩ := ih; exact ⟨h, .label hb h1 h63 hlen hh⟩
+  | ptr hb h192 hb2 _ ih => obtain ⟨h, hh⟩ := ih; exact ⟨h + 1, .ptr hb h192 hb2 hh⟩
+
+theorem DenotesH.toDenotes {m : Bytes} {off : Nat} {ls : List Bytes} {nx h : Nat} (hd : DenotesH m off ls nx h) :
     Denotes m off ls nx := by
-  induction h with
+  induction hd with
   | root h0 => exact .root h0
   | label hb h1 h63 hlen _ ih => exact .label hb h1 h63 hlen ih
   | ptr hb h192 hb2 _ ih => exact .ptr hb h192 hb2 ih
 
+theorem Denotes.toN {m : Bytes} {off : Nat} {ls : List Bytes} {nx : Nat} (hd : Denotes m off ls nx) :
+    ∃ k h, DenotesN m off ls nx k h := by
+  obtain ⟨h, hh⟩ := hd.toH
+  obtain ⟨k, hk⟩ := hh.toN
+  exact ⟨k, h, hk⟩
+
+theorem DenotesN.toH {m : Bytes} {off : Nat} {ls : List Bytes} {nx k h : Nat} (hd : DenotesN m off ls nx k h) :
+    DenotesH m off ls nx h := by
+  induction hd with
+  | root h0 => exact .root h0
+  | label hb h1 h63 hlen _ ih => exact .label hb h1 h63 hlen ih
+  | ptr hb h192 hb2 _ ih => exact .ptr hb h192 hb2 ih
+
+theorem DenotesN.toDenotes {m : Bytes} {off : Nat} {ls : List Bytes} {nx k h : Nat} (hd : DenotesN m off ls nx k h) :
+    Denotes m off ls nx := hd.toH.toDenotes
+
 /-- the walk from an offset is deterministic: same labels, same continuation, same number of steps -/
-theorem DenotesN.det {m : Bytes} {off : Nat} {ls : List Bytes} {nx k : Nat} (h : DenotesN m off ls nx k) :
-    ∀ {ls' : List Bytes} {nx' k' : Nat}, DenotesN m off ls' nx' k' → ls = ls' ∧ nx = nx' ∧ k = k' := by
+theorem DenotesN.det {m : Bytes} {off : Nat} {ls : List Bytes} {nx k hh : Nat} (h : DenotesN m off ls nx k hh) :
+    ∀ {ls' : List Bytes} {nx' k' hh' : Nat}, DenotesN m off ls' nx' k' hh' → ls = ls' ∧ nx = nx' ∧ k = k' := by
   induction h with
   | root h0 =>
-    intro ls' nx' k' h'
+    intro ls' nx' k' hh' h'
     cases h' with
     | root _ => exact ⟨rfl, rfl, rfl⟩
     | label hb h1 _ _ _ => rw [h0] at hb; cases hb; simp at h1
     | ptr hb h192 _ _ => rw [h0] at hb; cases hb; simp at h192
   | label hb h1 h63 hlen _ ih =>
-    intro ls' nx' k' h'
+    intro ls' nx' k' hh' h'
     cases h' with
     | root h0 => rw [hb] at h0; cases h0; simp at h1
     | label hb' _ _ _ hrest =>
@@ -50,7 +73,7 @@ theorem DenotesN.det {m : Bytes} {off : Nat} {ls : List Bytes} {nx k : Nat} (h :
       exact ⟨by rw [e1], e2, by rw [e3]⟩
     | ptr hb' h192 _ _ => rw [hb] at hb'; cases hb'; omega
   | ptr hb h192 hb2 _ ih =>
-    intro ls' nx' k' h'
+    intro ls' nx' k' hh' h'
     cases h' with
     | root h0 => rw [hb] at h0; cases h0; simp at h192
     | label hb' _ h63 _ _ => rw [hb] at hb'; cases hb'; omega
@@ -75,14 +98,14 @@ theorem ptr_value (b b2 : UInt8) (_h : 192 ≤ b.toNat) :
 theorem joinFrom_cons (name l : Bytes) (ls : List Bytes) : joinFrom name (l :: ls) = joinFrom (appendLabel name l) ls := rfl
 
 /-- soundness of the loop from any reachable state -/
-theorem decodeGo_sound (m : Bytes) {off : Nat} {ls : List Bytes} {nx k : Nat} (h : DenotesN m off ls nx k) :
+theorem decodeGo_sound (m : Bytes) {off : Nat} {ls : List Bytes} {nx k hops : Nat} (h : DenotesN m off ls nx k hops) :
     ∀ (s : NSt), s.off = off →
-      (∀ v ∈ s.visited, ∀ ls' nx' k', DenotesN m v ls' nx' k' → k ≤ k') →
-      s.total + wire ls ≤ 253 →
+      (∀ v ∈ s.visited, ∀ ls' nx' k' h', DenotesN m v ls' nx' k' h' → k ≤ k') →
+      s.total + wire ls + 1 ≤ 255 → s.jumps + hops ≤ Gen.Dns.maxJumps →
       ∀ f, k + 1 ≤ f → decodeGo m f s = .ok (joinFrom s.name ls, if s.jumped then s.orig else nx) := by
   induction h with
   | @root off h0 =>
-    intro s hs _ _ f hf
+    intro s hs _ _ _ f hf
     obtain ⟨f, rfl⟩ : ∃ g, f = g + 1 := ⟨f - 1, by omega⟩
     have hlt : s.off < m.length := by
       rw [hs]; exact (List.getElem?_eq_some_iff.mp h0).1
@@ -90,8 +113,8 @@ theorem decodeGo_sound (m : Bytes) {off : Nat} {ls : List Bytes} {nx k : Nat} (h
     have : rd m s.off = .ok 0 := by rw [hs]; exact rd_ok_iff.mpr h0
     rw [this]
     simp [isPtr, Gen.Dns.compressionMask, joinFrom, hs]
-  | @label off b ls next k hb h1 h63 hlen _ ih =>
-    intro s hs hv ht f hf
+  | @label off b ls next k hops hb h1 h63 hlen _ ih =>
+    intro s hs hv ht hj f hf
     obtain ⟨f, rfl⟩ : ∃ g, f = g + 1 := ⟨f - 1, by omega⟩
     have hlt : s.off < m.length := by
       rw [hs]; exact (List.getElem?_eq_some_iff.mp hb).1
@@ -105,16 +128,18 @@ theorem decodeGo_sound (m : Bytes) {off : Nat} {ls : List Bytes} {nx k : Nat} (h
     have hsl : (slice m (off + 1) b.toNat).length = b.toNat := by
       simp [slice, List.length_take, List.length_drop]; omega
     simp only [wire, hsl] at ht
-    simp only [hnp, Bool.false_eq_true, ↓reduceIte, Gen.Dns.maxLabel, Gen.Dns.maxName,
+    have hroot : rootOctet = 1 := rfl
+    simp only [hnp, Bool.false_eq_true, ↓reduceIte, Gen.Dns.maxLabel, Gen.Dns.maxName, hroot,
       show ¬ b.toNat = 0 by omega, show ¬ b.toNat > 63 by omega,
-      show ¬ s.off + 1 + b.toNat > m.length by omega, show ¬ s.total + (b.toNat + 1) > 253 by omega]
+      show ¬ s.off + 1 + b.toNat > m.length by omega, copy_ok (show s.off + 1 + b.toNat ≤ m.length by omega),
+      show ¬ s.total + (b.toNat + 1) + 1 > 255 by omega]
     rw [ih { s with off := s.off + (b.toNat + 1), total := s.total + (b.toNat + 1),
                     name := appendLabel s.name (slice m (s.off + 1) b.toNat) }
-          (by simp [hs]) (fun v hv' ls' nx' k' hd => by have := hv v hv' ls' nx' k' hd; omega)
-          (by simp only []; omega) f (by omega)]
+          (by simp [hs]) (fun v hv' ls' nx' k' h' hd => by have := hv v hv' ls' nx' k' h' hd; omega)
+          (by simp only []; omega) hj f (by omega)]
     simp [joinFrom_cons, hs]
-  | @ptr off b b2 ls nx k hb h192 hb2 hrest ih =>
-    intro s hs hv ht f hf
+  | @ptr off b b2 ls nx k hops hb h192 hb2 hrest ih =>
+    intro s hs hv ht hj f hf
     obtain ⟨f, rfl⟩ : ∃ g, f = g + 1 := ⟨f - 1, by omega⟩
     have hlt : s.off < m.length := by
       rw [hs]; exact (List.getElem?_eq_some_iff.mp hb).1
@@ -144,17 +169,20 @@ theorem decodeGo_sound (m : Bytes) {off : Nat} {ls : List Bytes} {nx k : Nat} (h
       | false => rfl
       | true =>
         have hmem : (b.toNat % 64) * 256 + b2.toNat ∈ s.visited := by simpa using hc
-        have := hv _ hmem _ _ _ hrest
+        have := hv _ hmem _ _ _ _ hrest
         omega
-    simp only [show ¬ (b.toNat % 64) * 256 + b2.toNat ≥ m.length by omega, hnv, Bool.false_eq_true, ↓reduceIte]
+    -- and the bound on compression pointers is not reached
+    have hcap : (Gen.Dns.hasJumpCap && decide (s.jumps + 1 > Gen.Dns.maxJumps)) = false := by
+      simp only [Gen.Dns.hasJumpCap, Bool.true_and, decide_eq_false_iff_not]; omega
+    simp only [show ¬ (b.toNat % 64) * 256 + b2.toNat ≥ m.length by omega, hnv, hcap, Bool.false_eq_true, ↓reduceIte]
     rw [ih { s with off := (b.toNat % 64) * 256 + b2.toNat, visited := ((b.toNat % 64) * 256 + b2.toNat) :: s.visited,
-                    jumped := true, orig := if s.jumped then s.orig else s.off + 2 }
+                    jumped := true, orig := if s.jumped then s.orig else s.off + 2, jumps := s.jumps + 1 }
           rfl
-          (fun v hv' ls' nx' k' hd => by
+          (fun v hv' ls' nx' k' h' hd => by
             cases hv' with
             | head => have := (hrest.det hd).2.2; omega
-            | tail _ hm => have := hv v hm ls' nx' k' hd; omega)
-          ht f (by omega)]
+            | tail _ hm => have := hv v hm ls' nx' k' h' hd; omega)
+          ht (by show s.jumps + 1 + hops ≤ Gen.Dns.maxJumps; omega) f (by omega)]
     cases s.jumped <;> simp [hs]
 
 /-- more fuel never changes an answer that is not "out of fuel" -/
@@ -199,7 +227,12 @@ theorem decodeGo_mono (m : Bytes) : ∀ (f : Nat) (s : NSt) (r : R (Bytes × Nat
                   simp only [hv, ↓reduceIte] at h; exact h
                 · rename_i hv
                   simp only [hv, Bool.false_eq_true, ↓reduceIte] at h
-                  exact ih _ _ h hr
+                  split
+                  · rename_i hc
+                    simp only [hc, ↓reduceIte] at h; exact h
+                  · rename_i hc
+                    simp only [hc, Bool.false_eq_true, ↓reduceIte] at h
+                    exact ih _ _ h hr
         · rename_i hp
           simp only [hp, Bool.false_eq_true, ↓reduceIte] at h
           split
@@ -218,11 +251,16 @@ theorem decodeGo_mono (m : Bytes) : ∀ (f : Nat) (s : NSt) (r : R (Bytes × Nat
               · rename_i h2
                 simp only [h2, ↓reduceIte] at h
                 split
-                · rename_i h3
-                  simp only [h3, ↓reduceIte] at h; exact h
-                · rename_i h3
-                  simp only [h3, ↓reduceIte] at h
-                  exact ih _ _ h hr
+                · rename_i e he
+                  simp only [he] at h; exact h
+                · rename_i lbl hl
+                  simp only [hl] at h
+                  split
+                  · rename_i h3
+                    simp only [h3, ↓reduceIte] at h; exact h
+                  · rename_i h3
+                    simp only [h3, ↓reduceIte] at h
+                    exact ih _ _ h hr
     · rename_i hlt
       simp only [hlt, ↓reduceIte] at h
       exact h
@@ -234,13 +272,14 @@ theorem decodeGo_mono' (m : Bytes) (f : Nat) (s : NSt) (r : R (Bytes × Nat)) (h
   | zero => exact h
   | succ d ih => exact decodeGo_mono m (f + d) s r ih hr
 
-/-- **N1 (soundness).** Whatever the layout of compression pointers: if the bytes at `off` denote the labels `ls`
-(RFC 1035 relation) and the name is within the decoder's length limit, `decodeName` returns exactly those labels in
-presentation form and the continuation offset. -/
-theorem decodeName_sound (m : Bytes) (off : Nat) (ls : List Bytes) (nx : Nat) (h : Denotes m off ls nx)
-    (hw : wire ls ≤ 253) : decodeName m off = .ok (dottedName ls, nx) := by
-  obtain ⟨k, hk⟩ := h.toN
-  have key := decodeGo_sound m hk { off := off, orig := off } rfl (by intro v hv; cases hv) (by simpa using hw)
+/-- **N1 (soundness).** Whatever the layout of compression pointers: if the bytes at `off` are a well-formed name with
+labels `ls` (RFC 1035 relation, RFC length limit, at most `maxJumps` pointers followed), `decodeName` returns exactly those
+labels in presentation form and the continuation offset. -/
+theorem decodeName_sound (m : Bytes) (off : Nat) (ls : List Bytes) (nx : Nat) (h : WellFormedName m off ls nx) :
+    decodeName m off = .ok (dottedName ls, nx) := by
+  obtain ⟨hops, hh, hj, hw⟩ := h
+  obtain ⟨k, hk⟩ := hh.toN
+  have key := decodeGo_sound m hk { off := off, orig := off } rfl (by intro v hv; cases hv) (by simpa using hw) (by simpa using hj)
   unfold decodeName
   by_cases hf : k + 1 ≤ nameFuel m
   · have := key (nameFuel m) hf
@@ -253,17 +292,16 @@ theorem decodeName_sound (m : Bytes) (off : Nat) (ls : List Bytes) (nx : Nat) (h
     rw [← this, key (k + 1) (Nat.le_refl _)]
     simp [dottedName]
 
-/-- completeness of the loop: an accepted name is denoted by the bytes (needs the repaired epilogue: a name that
-runs off the end of the message is an error) -/
+/-- completeness of the loop: an accepted name is denoted by the bytes, within the limits -/
 theorem decodeGo_complete (m : Bytes) : ∀ (f : Nat) (s : NSt) (n : Bytes) (nx : Nat),
-    s.total ≤ 253 → decodeGo m f s = .ok (n, nx) →
-    ∃ ls nx', Denotes m s.off ls nx' ∧ n = joinFrom s.name ls ∧ nx = (if s.jumped then s.orig else nx') ∧
-      s.total + wire ls ≤ 253 := by
+    s.total + 1 ≤ 255 → s.jumps ≤ Gen.Dns.maxJumps → decodeGo m f s = .ok (n, nx) →
+    ∃ ls nx' hops, DenotesH m s.off ls nx' hops ∧ n = joinFrom s.name ls ∧ nx = (if s.jumped then s.orig else nx') ∧
+      s.total + wire ls + 1 ≤ 255 ∧ s.jumps + hops ≤ Gen.Dns.maxJumps := by
   intro f
   induction f with
-  | zero => intro s n nx _ h; simp [decodeGo] at h
+  | zero => intro s n nx _ _ h; simp [decodeGo] at h
   | succ f ih =>
-    intro s n nx hs h
+    intro s n nx hs hjs h
     unfold decodeGo at h
     dsimp only at h
     split at h
@@ -286,11 +324,15 @@ theorem decodeGo_complete (m : Bytes) : ∀ (f : Nat) (s : NSt) (n : Bytes) (nx 
               · cases h
               · split at h
                 · cases h
-                · obtain ⟨ls, nx', hd, hn, hnx, ht⟩ := ih _ _ _ (by exact hs) h
-                  dsimp only at hd hn hnx ht
-                  rw [hweq, ptr_value b c2 h192] at hd
-                  refine ⟨ls, s.off + 2, .ptr hb' h192 hc2 hd, hn, ?_, ht⟩
-                  simpa using hnx
+                · split at h
+                  · cases h
+                  · rename_i hcap
+                    simp only [Gen.Dns.hasJumpCap, Bool.true_and, decide_eq_true_eq] at hcap
+                    obtain ⟨ls, nx', hops, hd, hn, hnx, ht, hj⟩ := ih _ _ _ (by exact hs) (by show s.jumps + 1 ≤ Gen.Dns.maxJumps; omega) h
+                    dsimp only at hd hn hnx ht hj
+                    rw [hweq, ptr_value b c2 h192] at hd
+                    refine ⟨ls, s.off + 2, hops + 1, .ptr hb' h192 hc2 hd, hn, ?_, ht, by omega⟩
+                    simpa using hnx
         · rename_i hp
           have hlt192 : b.toNat < 192 := by
             have : ¬ 192 ≤ b.toNat := fun h' => by
@@ -303,35 +345,50 @@ theorem decodeGo_complete (m : Bytes) : ∀ (f : Nat) (s : NSt) (n : Bytes) (nx 
             have hb0 : b = 0 := by
               apply UInt8.toNat_inj.mp; simpa using h0
             rw [hb0] at hb'
-            exact ⟨[], s.off + 1, .root hb', rfl, rfl, by simp only [wire]; omega⟩
+            exact ⟨[], s.off + 1, 0, .root hb', rfl, rfl, by simp only [wire]; omega, by omega⟩
           · split at h
             · cases h
             · split at h
               · cases h
               · split at h
                 · cases h
-                · rename_i h0 h63 hbd htot
-                  simp only [Gen.Dns.maxLabel] at h63
-                  simp only [Gen.Dns.maxName] at htot
-                  obtain ⟨ls, nx', hd, hn, hnx, ht⟩ := ih _ _ _ (by dsimp only; omega) h
-                  dsimp only at hd hn hnx ht
-                  have hsl : (slice m (s.off + 1) b.toNat).length = b.toNat := by
-                    simp [slice, List.length_take, List.length_drop]; omega
-                  refine ⟨slice m (s.off + 1) b.toNat :: ls, nx', .label hb' (by omega) (by omega) (by omega) hd, ?_, hnx, ?_⟩
-                  · rw [joinFrom_cons]; exact hn
-                  · simp only [wire, hsl]; omega
+                · rename_i lbl hl
+                  obtain ⟨hlbl, _⟩ := copy_ok_inv hl
+                  subst hlbl
+                  split at h
+                  · cases h
+                  · rename_i h0 h63 hbd _ _ htot
+                    simp only [Gen.Dns.maxLabel] at h63
+                    have hroot : rootOctet = 1 := rfl
+                    simp only [Gen.Dns.maxName, hroot] at htot
+                    obtain ⟨ls, nx', hops, hd, hn, hnx, ht, hj⟩ := ih _ _ _ (by dsimp only; omega) (by exact hjs) h
+                    dsimp only at hd hn hnx ht hj
+                    have hsl : (slice m (s.off + 1) b.toNat).length = b.toNat := by
+                      simp [slice, List.length_take, List.length_drop]; omega
+                    refine ⟨slice m (s.off + 1) b.toNat :: ls, nx', hops, .label hb' (by omega) (by omega) (by omega) hd, ?_, hnx, ?_, hj⟩
+                    · rw [joinFrom_cons]; exact hn
+                    · simp only [wire, hsl]; omega
     · cases h
 
-/-- **N1 (completeness).** `decodeName` accepts only what the bytes denote: an `ok` answer is a name for which the RFC 1035
-relation holds, with exactly the returned presentation form and continuation offset (so: no accepted loop, no accepted
-out-of-range pointer, no accepted truncated name). -/
+/-- **N1 (completeness).** `decodeName` accepts only well-formed names: an `ok` answer is a name for which the RFC 1035 relation
+holds within the limits, with exactly the returned presentation form and continuation offset (so: no accepted loop, no
+accepted out-of-range pointer, no accepted truncated name). -/
 theorem decodeName_complete (m : Bytes) (off : Nat) (n : Bytes) (nx : Nat)
     (h : decodeName m off = .ok (n, nx)) :
-    ∃ ls, Denotes m off ls nx ∧ n = dottedName ls ∧ wire ls ≤ 253 := by
+    ∃ ls, WellFormedName m off ls nx ∧ n = dottedName ls := by
   unfold decodeName at h
-  obtain ⟨ls, nx', hd, hn, hnx, ht⟩ := decodeGo_complete m _ _ _ _ (by simp) h
-  refine ⟨ls, ?_, hn, by simpa using ht⟩
+  obtain ⟨ls, nx', hops, hd, hn, hnx, ht, hj⟩ := decodeGo_complete m _ _ _ _ (by simp) (by simp) h
   simp at hnx
-  rw [hnx]; exact hd
+  subst hnx
+  exact ⟨ls, ⟨hops, hd, by simpa using hj, by simpa using ht⟩, hn⟩
+
+/-- **N1 (exactly).** `decodeName` answers `ok (n, next)` if and only if the bytes at `off` are a well-formed name whose
+presentation form is `n` and behind which the enclosing structure continues at `next`. -/
+theorem decodeName_exact (m : Bytes) (off : Nat) (n : Bytes) (nx : Nat) :
+    decodeName m off = .ok (n, nx) ↔ ∃ ls, WellFormedName m off ls nx ∧ n = dottedName ls := by
+  constructor
+  · exact decodeName_complete m off n nx
+  · rintro ⟨ls, hw, rfl⟩
+    exact decodeName_sound m off ls nx hw
 
 end Iora.Dns
